@@ -394,6 +394,20 @@ func TestC18(t *testing.T) {
 		"handlers mode composes filter/add/update/delete exactly like provider.newController does (cache.FilteringResourceEventHandler)",
 		"content the processor refuses stands for an invalid rule set: the provider itself does not validate")
 
+	if prov, mode, names, _, ok := vfReplayCase(r); ok {
+		if seq, known := vfSymbols(names, vfkNames[:]); prov == "kubernetes" && known {
+			st := &vfStats{}
+			if mode == "handlers" {
+				vfkRunHandlers(r, seq, st)
+			} else {
+				vfkInstallPanicRecorder()
+				vfkRunInformer(r, 0, seq, st)
+			}
+			r.Eval(1)
+			vfFlushStats(r, st)
+		}
+		r.End()
+	}
 	t0 := time.Now()
 	vfkHandlers(r)
 	r.Set("k8s_handlers_wall_s", time.Since(t0).Seconds())
@@ -585,14 +599,19 @@ var vfkPanics struct {
 	log []string
 }
 
-func vfkInformer(r *core.Run) {
-	// a panic on the informer goroutine would end the test binary; it is recorded instead (and reported)
+// vfkInstallPanicRecorder: a panic on the informer goroutine would end the test binary; it is recorded
+// instead (and reported as a violation of the step in which it happened).
+func vfkInstallPanicRecorder() {
 	utilruntime.ReallyCrash = false
 	utilruntime.PanicHandlers = append(utilruntime.PanicHandlers, func(_ context.Context, p any) {
 		vfkPanics.mu.Lock()
 		vfkPanics.log = append(vfkPanics.log, fmt.Sprint(p))
 		vfkPanics.mu.Unlock()
 	})
+}
+
+func vfkInformer(r *core.Run) {
+	vfkInstallPanicRecorder()
 	nSeq := r.Pick(14, 120)
 	seqLen := r.Pick(6, 8)
 	rng := r.Stream("c18-k8s-informer")
